@@ -204,6 +204,82 @@ func (p *proc) query(asserts []*Term, vars []*Term, timeoutMs int) QueryResult {
 	return res
 }
 
+// queryRaw runs a self-contained script (declarations + assertions) inside a
+// push/pop scope. Used for the integer encoding.
+func (p *proc) queryRaw(script string, vars []*Term, timeoutMs int, label string) QueryResult {
+	start := time.Now()
+	var sb strings.Builder
+	if strings.HasPrefix(p.be.name, "z3") {
+		fmt.Fprintf(&sb, "(set-option :timeout %d)\n", timeoutMs)
+	} else {
+		fmt.Fprintf(&sb, "(set-option :tlimit-per %d)\n", timeoutMs)
+	}
+	sb.WriteString("(push 1)\n")
+	sb.WriteString(script)
+	sb.WriteString("(check-sat)\n")
+	if dumpSMT != nil {
+		dumpSMT(label, sb.String())
+	}
+	res := QueryResult{Solver: label}
+	if _, err := io.WriteString(p.in, sb.String()); err != nil {
+		p.kill()
+		res.Err = "write: " + err.Error()
+		res.Dur = time.Since(start)
+		return res
+	}
+	line, err := p.readLine()
+	if err != nil {
+		p.kill()
+		res.Err = "read: " + err.Error()
+		res.Dur = time.Since(start)
+		return res
+	}
+	switch line {
+	case "sat":
+		res.Status = Sat
+	case "unsat":
+		res.Status = Unsat
+	case "unknown", "timeout":
+	default:
+		res.Err = line
+		p.kill()
+		res.Dur = time.Since(start)
+		return res
+	}
+	if res.Status == Sat && len(vars) > 0 {
+		var gv strings.Builder
+		gv.WriteString("(get-value (")
+		for _, v := range vars {
+			gv.WriteString(v.ref() + " ")
+		}
+		gv.WriteString("))\n")
+		io.WriteString(p.in, gv.String())
+		txt, err := p.readSexp()
+		if err != nil {
+			p.kill()
+			res.Err = "get-value: " + err.Error()
+			res.Status = Unknown
+			res.Dur = time.Since(start)
+			return res
+		}
+		m := parseModel(txt)
+		// integers -> unsigned bit-vector values
+		for _, v := range vars {
+			if val, ok := m[v.Name]; ok && v.W > 0 {
+				m[v.Name] = new(big.Int).And(new(big.Int).Add(new(big.Int).Mod(val, pow2(v.W)), pow2(v.W)), new(big.Int).Sub(pow2(v.W), bigOne))
+			}
+		}
+		res.Model = m
+		if strings.Contains(txt, "(error") {
+			res.Err = txt
+			res.Status = Unknown
+		}
+	}
+	io.WriteString(p.in, "(pop 1)\n")
+	res.Dur = time.Since(start)
+	return res
+}
+
 func (p *proc) readLine() (string, error) {
 	for {
 		l, err := p.out.ReadString('\n')
@@ -289,13 +365,24 @@ func parseModel(s string) map[string]*big.Int {
 		case strings.HasPrefix(v, "#b"):
 			val, _ = new(big.Int).SetString(v[2:], 2)
 		case v == "(":
-			// (_ bvN W)
+			// (_ bvN W) or (- N)
 			a := next()
 			b := next()
-			next() // width
-			next() // )
-			if a == "_" && strings.HasPrefix(b, "bv") {
-				val, _ = new(big.Int).SetString(b[2:], 10)
+			if a == "-" {
+				if n, ok := new(big.Int).SetString(b, 10); ok {
+					val = n.Neg(n)
+				}
+				next() // )
+			} else {
+				next() // width
+				next() // )
+				if a == "_" && strings.HasPrefix(b, "bv") {
+					val, _ = new(big.Int).SetString(b[2:], 10)
+				}
+			}
+		default:
+			if n, ok := new(big.Int).SetString(v, 10); ok {
+				val = n
 			}
 		}
 		if val != nil {
@@ -343,6 +430,21 @@ func tokenize(s string) []string {
 
 var dumpSMT func(solver, text string)
 
+func init() {
+	if d := os.Getenv("VCHECK_DUMP"); d != "" {
+		os.MkdirAll(d, 0o755)
+		var mu sync.Mutex
+		n := 0
+		dumpSMT = func(solver, text string) {
+			mu.Lock()
+			n++
+			k := n
+			mu.Unlock()
+			os.WriteFile(fmt.Sprintf("%s/q%05d-%s.smt2", d, k, solver), []byte(text), 0o644)
+		}
+	}
+}
+
 // ---------- portfolio ----------
 
 type SolverStats struct {
@@ -355,6 +457,8 @@ type SolverStats struct {
 	Raced    int
 	Disagree int
 	Errors   []string
+	IntEncFail int
+	IntEncWhy  []string
 }
 
 func newStats() *SolverStats {
@@ -389,6 +493,9 @@ type Portfolio struct {
 }
 
 func NewPortfolio(stats *SolverStats, timeoutMs int, cross bool) *Portfolio {
+	if os.Getenv("VCHECK_XCHECK") != "" {
+		cross = true
+	}
 	return &Portfolio{procs: map[string]*proc{}, stats: stats, timeoutMs: timeoutMs, raceAfter: 1500 * time.Millisecond, crossCheck: cross}
 }
 
@@ -398,8 +505,10 @@ func (pf *Portfolio) Close() {
 	}
 }
 
-func (pf *Portfolio) get(name string) *proc {
-	p := pf.procs[name]
+func (pf *Portfolio) get(name string) *proc { return pf.getKey(name, name) }
+
+func (pf *Portfolio) getKey(key, name string) *proc {
+	p := pf.procs[key]
 	if p != nil && !p.dead {
 		return p
 	}
@@ -408,9 +517,11 @@ func (pf *Portfolio) get(name string) *proc {
 		fmt.Fprintln(os.Stderr, "cannot start solver", name, err)
 		return nil
 	}
-	pf.procs[name] = np
+	pf.procs[key] = np
 	return np
 }
+
+var noIntEnc = os.Getenv("VCHECK_NOINT") != ""
 
 func anyHard(ts []*Term) bool {
 	for _, t := range ts {
@@ -423,17 +534,49 @@ func anyHard(ts []*Term) bool {
 
 // Check decides satisfiability of the conjunction of asserts.
 func (pf *Portfolio) Check(asserts []*Term, vars []*Term) QueryResult {
+	t0 := time.Now()
+	r := pf.check(asserts, vars)
+	if standaloneDir != "" && time.Since(t0) > time.Second {
+		dumpStandalone(asserts, r, time.Since(t0))
+	}
+	if d := time.Since(t0); slowLog && d > 2*time.Second {
+		fmt.Fprintf(os.Stderr, "slow query: %.1fs status=%v solver=%s hard=%v asserts=%d err=%s\n", d.Seconds(), r.Status, r.Solver, anyHard(asserts), len(asserts), r.Err)
+	}
+	return r
+}
+
+var slowLog = os.Getenv("VCHECK_SLOW") != ""
+
+func (pf *Portfolio) check(asserts []*Term, vars []*Term) QueryResult {
 	// trivial cases
 	conj := And(asserts...)
 	if conj.IsFalse() {
 		return QueryResult{Status: Unsat, Solver: "simplifier"}
 	}
-	order := []string{"z3new", "cvc5int", "cvc5"}
+	type attempt struct {
+		name string
+		ints bool
+	}
+	order := []attempt{{"z3new", false}, {"cvc5int", false}, {"cvc5", false}}
+	var intScript string
 	if anyHard(asserts) {
-		order = []string{"cvc5int", "z3new", "cvc5"}
+		order = []attempt{{"cvc5int", false}, {"z3new", false}, {"cvc5", false}}
+		if !noIntEnc {
+			if txt, _, ok, why := intEncode(asserts, vars); ok {
+				intScript = txt
+				order = []attempt{{"z3new", true}, {"cvc5", true}, {"cvc5int", false}, {"z3new", false}}
+			} else {
+				pf.stats.mu.Lock()
+				pf.stats.IntEncFail++
+				if len(pf.stats.IntEncWhy) < 5 {
+					pf.stats.IntEncWhy = append(pf.stats.IntEncWhy, why)
+				}
+				pf.stats.mu.Unlock()
+			}
+		}
 	}
 	if forceSolver != "" {
-		order = []string{forceSolver}
+		order = []attempt{{forceSolver, false}}
 	}
 	type ans struct {
 		r QueryResult
@@ -441,13 +584,21 @@ func (pf *Portfolio) Check(asserts []*Term, vars []*Term) QueryResult {
 	}
 	ch := make(chan ans, len(order))
 	launched := 0
-	launch := func(name string) *proc {
-		p := pf.get(name)
+	launch := func(at attempt) *proc {
+		key := at.name
+		if at.ints {
+			key += "/int"
+		}
+		p := pf.getKey(key, at.name)
 		if p == nil {
 			return nil
 		}
 		launched++
-		go func() { ch <- ans{p.query(asserts, vars, pf.timeoutMs), p} }()
+		if at.ints {
+			go func() { ch <- ans{p.queryRaw(intScript, vars, pf.timeoutMs, key), p} }()
+		} else {
+			go func() { ch <- ans{p.query(asserts, vars, pf.timeoutMs), p} }()
+		}
 		return p
 	}
 	busy := map[*proc]bool{}
@@ -461,7 +612,7 @@ func (pf *Portfolio) Check(asserts []*Term, vars []*Term) QueryResult {
 	defer race.Stop()
 	var best QueryResult
 	best.Status = Unknown
-	best.Solver = order[0]
+	best.Solver = order[0].name
 	got := 0
 	for got < launched || (nextIdx < len(order) && best.Status == Unknown) {
 		if got >= launched {
@@ -508,6 +659,9 @@ done:
 		if best.Solver == "cvc5int" {
 			other = "z3new"
 		}
+		if strings.HasSuffix(best.Solver, "/int") {
+			other = "cvc5int" // integer encoding is cross-checked against the BV encoding
+		}
 		if p := pf.get(other); p != nil {
 			c := make(chan QueryResult, 1)
 			go func() { c <- p.query(asserts, nil, 60000) }()
@@ -518,8 +672,23 @@ done:
 					pf.stats.mu.Lock()
 					pf.stats.Disagree++
 					pf.stats.mu.Unlock()
-					best.Status = Unknown
 					best.Err = fmt.Sprintf("solver disagreement: %s=%v %s=%v", best.Solver, best.Status, r2.Solver, r2.Status)
+					if d := os.Getenv("VCHECK_DISAGREE"); d != "" && best.Model != nil {
+						fmt.Fprintln(os.Stderr, "INTENC DEBUG:", debugIntEnc(pf, asserts, best.Model))
+					}
+					if d := os.Getenv("VCHECK_DISAGREE"); d != "" {
+						os.MkdirAll(d, 0o755)
+						standaloneMu.Lock()
+						standaloneN++
+						n := standaloneN
+						standaloneMu.Unlock()
+						os.WriteFile(fmt.Sprintf("%s/d%03d-int.smt2", d, n), []byte("(set-logic ALL)\n"+intScript+"(check-sat)\n(get-model)\n"), 0o644)
+						sd := standaloneDir
+						standaloneDir = d
+						dumpStandalone(asserts, r2, 0)
+						standaloneDir = sd
+					}
+					best.Status = Unknown
 				}
 			case <-time.After(65 * time.Second):
 				p.kill()
@@ -530,3 +699,26 @@ done:
 }
 
 var forceSolver = os.Getenv("VCHECK_SOLVER")
+
+var standaloneDir = os.Getenv("VCHECK_DUMPSLOW")
+var standaloneN int
+var standaloneMu sync.Mutex
+
+func dumpStandalone(asserts []*Term, r QueryResult, d time.Duration) {
+	standaloneMu.Lock()
+	standaloneN++
+	n := standaloneN
+	standaloneMu.Unlock()
+	os.MkdirAll(standaloneDir, 0o755)
+	p := &proc{defined: map[int]bool{}}
+	var sb strings.Builder
+	fmt.Fprintf(&sb, "; %s %s %.1fs\n(set-logic ALL)\n", r.Solver, r.Status, d.Seconds())
+	for _, a := range asserts {
+		p.define(&sb, a)
+	}
+	for _, a := range asserts {
+		fmt.Fprintf(&sb, "(assert %s)\n", a.ref())
+	}
+	sb.WriteString("(check-sat)\n")
+	os.WriteFile(fmt.Sprintf("%s/slow%04d.smt2", standaloneDir, n), []byte(sb.String()), 0o644)
+}
